@@ -4,13 +4,22 @@ EXTENDS BinanceL2
 CONSTANT MCM          \* number of elementary changes
 
 \* every evolution of MCM changes over PRICE x AMOUNT on both sides
-AllEvolutions == [1..MCM -> [side : {"b", "a"}, p : PRICE, a : AMOUNT]]
+NoLevel == [side |-> "n", p |-> CHOOSE p \in PRICE : TRUE, a |-> 0]        \* an id that changes no level
+AllEvolutions == [1..MCM -> [side : {"b", "a"}, p : PRICE, a : AMOUNT] \cup {NoLevel}]
 
-\* three fixed evolutions (sequencing is independent of book content): set / overwrite / delete /
+\* five fixed evolutions (sequencing is independent of book content): set / overwrite / delete /
 \* delete-absent on both sides
 C(s, p, a) == [side |-> s, p |-> p, a |-> a]
 FewEvolutions ==
   { [j \in 1..MCM |-> CASE j % 4 = 1 -> C("b", 1, 1) [] j % 4 = 2 -> C("a", 2, 1) [] j % 4 = 3 -> C("b", 1, 0) [] OTHER -> C("a", 2, 2)],
     [j \in 1..MCM |-> CASE j % 3 = 1 -> C("a", 1, 2) [] j % 3 = 2 -> C("a", 1, 0) [] OTHER -> C("b", 2, 1)],
-    [j \in 1..MCM |-> IF j % 2 = 1 THEN C("b", 2, 2) ELSE C("b", 1, 0)] }
+    [j \in 1..MCM |-> IF j % 2 = 1 THEN C("b", 2, 2) ELSE C("b", 1, 0)],
+    \* with ids that change no level: grouped on their own they give depth updates with empty b and a
+    [j \in 1..MCM |-> IF j \in {2, 3} THEN NoLevel ELSE IF j = 1 THEN C("b", 1, 1) ELSE C("a", 2, 1)],
+    [j \in 1..MCM |-> IF j % 2 = 1 THEN NoLevel ELSE C("a", 1, 2)] }
+
+\* two of them (one with level-less ids) for the runs whose subject is not the book content
+TwoEvolutions ==
+  { [j \in 1..MCM |-> CASE j % 4 = 1 -> C("b", 1, 1) [] j % 4 = 2 -> C("a", 2, 1) [] j % 4 = 3 -> C("b", 1, 0) [] OTHER -> C("a", 2, 2)],
+    [j \in 1..MCM |-> IF j \in {2, 3} THEN NoLevel ELSE IF j = 1 THEN C("b", 1, 1) ELSE C("a", 2, 1)] }
 =============================================================================
